@@ -302,6 +302,12 @@ func ppValue(v slip.Object) (pv slip.Object) {
 		if 0 < len(tv) {
 			pv = slip.List{slip.Symbol("quote"), tv}
 		}
+	case slip.Symbol:
+		// A keyword evaluates to itself, any other symbol would be taken
+		// as a variable.
+		if len(tv) == 0 || tv[0] != ':' {
+			pv = slip.List{slip.Symbol("quote"), tv}
+		}
 	case *slip.Package:
 		pv = slip.List{
 			slip.Symbol("find-package"),
